@@ -197,6 +197,7 @@ Proof.
                (a_kind (get_alloc v s) = 1 -> o mod a_align (get_alloc v s) = 0))).
   { intros code. split; [discriminate|]. split; [discriminate|]. split; [reflexivity|]. left. reflexivity. }
   destruct (res =? 0); [apply Hnone|]. destruct (a_allocated (get_alloc v s)) eqn:Ea; cbn [negb]; [|apply Hnone].
+  destruct (off <? 0); [apply Hnone|].
   destruct (find_offset_valid v s (get_alloc v s) HI (get_alloc_allocated _ _ Ea)) as (o & d & Ho & Hf & O1 & O2 & O3 & O4).
   assert (Hkind : a_kind (get_alloc v s) = 1 \/ a_kind (get_alloc v s) = 2).
   { destruct (vi_slots _ _ _ _ HI s _ (get_alloc_allocated _ _ Ea) ltac:(intros [])) as [(K & _)|(K & _)]; auto. }
@@ -232,6 +233,31 @@ Proof.
   destruct P3 as [E|(o & code & d & E & Ha & Ho & Hf & R)].
   - left. rewrite E. reflexivity.
   - right. exists o, code, d. rewrite E. unfold v0 in Ho. rewrite find_offset_set_m in Ho. cbn. auto.
+Qed.
+
+(* a negative allocation-local offset (BindBufferMemoryWithOffset / BindImageMemoryWithOffset) is refused before any driver
+   call; so whenever vkBind*Memory is issued, the caller's offset is >= 0 and the device offset off + o is >= the allocation's
+   own offset o *)
+Lemma bind_memory_neg_offset v s image res off :
+  off < 0 -> exists code, bind_memory v s image res off = (v, ER code).
+Proof.
+  intros H. unfold bind_memory. destruct (res =? 0); [eauto|]. destruct (negb _); [eauto|].
+  apply Z.ltb_lt in H. rewrite H. eauto.
+Qed.
+
+Theorem bind_step_neg_offset v s image res off f v' r calls :
+  step c v (OBind s image res off) f = (v', r, calls) -> off < 0 -> (exists code, r = RErr code) /\ calls = [].
+Proof.
+  intros Hs Hoff. unfold step in Hs. cbn [exec] in Hs.
+  destruct (bind_memory_neg_offset (set_m v (clear_calls (set_fault (v_m v) f 0))) s image res off Hoff) as (code & E).
+  rewrite E in Hs. injection Hs as _ <- <-. split; [exists code; reflexivity|reflexivity].
+Qed.
+
+Theorem bind_step_offset_nonneg v s image res off f v' r calls :
+  step c v (OBind s image res off) f = (v', r, calls) -> calls <> [] -> 0 <= off.
+Proof.
+  intros Hs Hne. destruct (Z.ltb_spec off 0) as [Hlt|Hge]; [|exact Hge].
+  destruct (bind_step_neg_offset v s image res off f v' r calls Hs Hlt) as (_ & E). contradiction.
 Qed.
 
 End WithCfg.
